@@ -176,6 +176,11 @@ func (h *env) topo(kind string, key []byte) {
 			}
 		}
 		h.cluster.SplitRaw(region.Id, newID, key, peerIDs, lead)
+		if h.mockfix {
+			if parent, _ := h.cluster.GetRegion(region.Id); parent != nil {
+				h.raiseVersion(newID, parent.RegionEpoch.GetVersion())
+			}
+		}
 	case "merge":
 		if len(region.EndKey) == 0 {
 			return
@@ -186,29 +191,11 @@ func (h *env) topo(kind string, key []byte) {
 		}
 		h.cluster.Merge(region.Id, next.Id)
 		if h.mockfix {
-			// TiKV gives the merged region the version max(source, target)+1; mocktikv's Merge only adds 1 to the
-			// target's version, so the merged region can be OLDER than a cached neighbour and the client's stale-region
-			// guard (region_cache.go: removeIntersecting) rejects it forever.  Raise the version to the realistic one
-			// with split+merge cycles of the merged region (each adds 2); invisible to the client.
 			want := region.RegionEpoch.GetVersion()
 			if v := next.RegionEpoch.GetVersion(); v > want {
 				want = v
 			}
-			want++
-			for guard := 0; guard < 64; guard++ {
-				cur, _ := h.cluster.GetRegion(region.Id)
-				if cur == nil || cur.RegionEpoch.GetVersion() >= want {
-					break
-				}
-				mid := append(append([]byte{}, cur.StartKey...), 0)
-				if len(cur.EndKey) > 0 && bytes.Compare(mid, cur.EndKey) >= 0 {
-					break
-				}
-				tmp := h.cluster.AllocID()
-				peerIDs := h.cluster.AllocIDs(len(cur.Peers))
-				h.cluster.SplitRaw(cur.Id, tmp, mid, peerIDs, peerIDs[0])
-				h.cluster.Merge(cur.Id, tmp)
-			}
+			h.raiseVersion(region.Id, want+1)
 		}
 	case "leader":
 		var other *metapb.Peer
@@ -220,6 +207,35 @@ func (h *env) topo(kind string, key []byte) {
 		if other != nil {
 			h.cluster.ChangeLeader(region.Id, other.GetId())
 		}
+	}
+}
+
+// raiseVersion: TiKV gives both halves of a split the version parent+1 and a merged region max(source,target)+1;
+// mocktikv's Split starts the new region at version 1 and its Merge only adds 1 to the target, so a current region
+// can be OLDER than a stale cached neighbour and the client's stale-region guard (region_cache.go:
+// removeIntersecting) rejects it on every reload (the call then spins until the back-off budget is used up).
+// With `mockfix on` the version is raised to the realistic one by split+merge cycles of that region (each adds
+// 2), invisible to the client.
+func (h *env) raiseVersion(id uint64, want uint64) {
+	for guard := 0; guard < 200; guard++ {
+		cur, leader := h.cluster.GetRegion(id)
+		if cur == nil || cur.RegionEpoch.GetVersion() >= want {
+			return
+		}
+		mid := append(append([]byte{}, cur.StartKey...), 0)
+		if len(cur.EndKey) > 0 && bytes.Compare(mid, cur.EndKey) >= 0 {
+			return
+		}
+		tmp := h.cluster.AllocID()
+		peerIDs := h.cluster.AllocIDs(len(cur.Peers))
+		lead := peerIDs[0]
+		for i, p := range cur.Peers {
+			if p.GetId() == leader {
+				lead = peerIDs[i]
+			}
+		}
+		h.cluster.SplitRaw(cur.Id, tmp, mid, peerIDs, lead)
+		h.cluster.Merge(cur.Id, tmp)
 	}
 }
 
@@ -620,7 +636,9 @@ func (h *env) batchScript(node uint64, keys [][]byte, vlenOf map[string]int, t *
 			}
 		}
 		for len(rem) > 0 {
-			found := false
+			// candidates that are prefixes of each other consist of identical items: the builders fill every chunk
+			// but the last one of a group to the same length, so the longest candidate comes first
+			var best *batchObs
 			for _, g := range order {
 				b := byG[g]
 				if used[g] || b.bel != *reg || len(b.keys) > len(rem) || len(b.keys) == 0 {
@@ -633,17 +651,16 @@ func (h *env) batchScript(node uint64, keys [][]byte, vlenOf map[string]int, t *
 						break
 					}
 				}
-				if eq {
-					used[g] = true
-					seq = append(seq, b)
-					rem = rem[len(b.keys):]
-					found = true
-					break
+				if eq && (best == nil || len(b.keys) > len(best.keys)) {
+					best = b
 				}
 			}
-			if !found {
+			if best == nil {
 				return false
 			}
+			used[best.gid] = true
+			seq = append(seq, best)
+			rem = rem[len(best.keys):]
 		}
 	}
 	if len(seq) != len(order) {
@@ -1388,7 +1405,7 @@ func main() {
 		}
 		return
 	}
-	r := vx.NewRand(run.Seed)
+	r := vx.NewRand(run.Seed*0x2545F4914F6CDD1D + 99) // (vx seeds k and k+1 are one step apart in the same splitmix sequence)
 	caseNo := 0
 	h.quirkCases(&caseNo)
 	nCases, nOps, nBig := 90, 22, 2
